@@ -1,6 +1,6 @@
 """C12: stale responses are not served without revalidation (end to end through the real squid, scripted clock)."""
 import base64, calendar, json, os, random, struct, time
-from vlib import std, lab, common
+from vlib import std, lab, common, hbuild, recipes, corr
 
 PID = "C12"
 META = {
@@ -164,9 +164,18 @@ def request_parsed(st):
             int("only-if-cached" in cc), int(bool(st.get("pragma"))), -1, 0, 0]
 
 
+def response_head(rep, now):
+    body = rep.get("body", "body")
+    h = "HTTP/1.1 200 OK\r\n" + "".join("%s: %s\r\n" % (n, v) for n, v in reply_headers(rep, now))
+    return (h + "Content-Length: %d\r\n\r\n" % len(body)).encode("latin1")
+
+
 def to_case(s):
     if s.get("kind") == "config":
         return "refresh.config"
+    if s.get("kind") == "parse":
+        return "refresh.parse %d %s %s" % (s["now"], response_head(s["rep"], s["now"]).hex(),
+                                           ",".join(str(x) for x in reply_parsed(s["rep"], s["now"])))
     toks = []
     for st in s["steps"]:
         now = s["t0"] + st["dt"]
@@ -273,7 +282,10 @@ def gen_one(rng, k):
 
 
 def gen_scenarios(rng, n):
-    return [{"kind": "config"}] + [gen_one(rng, k) for k in range(n)]
+    hist = [gen_one(rng, k) for k in range(n)]
+    # unit level: the same reply recipes through Squid's own reply parser + HttpReply::hdrExpirationTime (harness/h_refresh.cc)
+    parse = [{"kind": "parse", "now": T_BASE + rng.randrange(0, 10 ** 8), "rep": gen_reply(rng)[0]} for _ in range(2 * n)]
+    return [{"kind": "config"}] + hist + parse
 
 
 # ------------------------------------------------------------------ implementation side
@@ -361,9 +373,39 @@ def run_one(L, s):
     return " ".join(out)
 
 
+HLINK = [x for x in recipes.HTTPREPLY if x not in ("SquidConfig.o", "tests/stub_libtime.o", "tests/stub_ETag.o")] + \
+        ["ETag.o", "time/libtime.la"]
+HFLAGS = ["-O1", "-g", "-fsanitize=undefined", "-fno-sanitize=vptr", "-fno-sanitize-recover=all"]
+
+
+def harness():
+    return hbuild.build("h_refresh", "h_refresh.cc", fresh=["src/HttpReply.cc", "src/HttpHdrCc.cc"], link=HLINK, sanitize=None,
+                        flags=HFLAGS, syslibs=["-fsanitize=undefined"] + hbuild.SYSLIBS)
+
+
+def prebuild():
+    from vlib import tables, coq
+    tables.regenerate(["refresh"])
+    coq.build_runner("refresh")
+    harness()
+
+
 def run_impl(L, scenarios):
-    order = sorted(range(len(scenarios)), key=lambda i: scenarios[i].get("t0", 0))
     obs = [None] * len(scenarios)
+    unit = [i for i, s in enumerate(scenarios) if s.get("kind") == "parse"]
+    if unit:
+        try:
+            out = corr.run_lines(harness(), [to_case(scenarios[i]) for i in unit])
+        except hbuild.BuildError as ex:
+            out = ["harness-build-failed " + " ".join(str(ex).split())[-300:]] * len(unit)
+        for i, o in zip(unit, out):
+            obs[i] = o
+    scenarios = [None if s.get("kind") == "parse" else s for s in scenarios]
+    return _run_lab_part(L, scenarios, obs)
+
+
+def _run_lab_part(L, scenarios, obs):
+    order = sorted((i for i in range(len(scenarios)) if scenarios[i] is not None), key=lambda i: scenarios[i].get("t0", 0))
     for i in order:     # sequential: all scenarios share the scripted clock
         obs[i] = run_one(L, scenarios[i])
     return obs
@@ -405,6 +447,22 @@ def oracle(s, obs):
         if obs.startswith("config max_stale=") and obs.endswith("refresh_pattern_lines=0"):
             return None
         return ("oracle:not-default-config", "the proxy does not run with default refresh rules: " + obs)
+    if s.get("kind") == "parse":
+        # the expiry Squid derives from the header equals Date + explicit lifetime whenever both are expressible
+        if not obs.startswith("parsed "):
+            return ("oracle:reply-not-parsed", "Squid's reply parser failed on a well-formed reply: " + obs)
+        rep, now = s["rep"], s["now"]
+        got = int(obs.split()[2])
+        L = explicit_lifetime(rep, now)
+        ex = rep.get("expires")
+        if L is not None and rep.get("date") is not None and not (ex and ex[0] == "bad" and rep.get("smaxage") is None
+                                                                  and rep.get("maxage") is None):
+            if got != now + rep["date"] + L:
+                return ("oracle:header-expiry", "hdrExpirationTime gives %d for %s at %d; Date + lifetime = %d"
+                        % (got, json.dumps(rep), now, now + rep["date"] + L))
+        if L is None and got != -1:
+            return ("oracle:header-expiry", "hdrExpirationTime gives %d for a reply without explicit lifetime %s" % (got, json.dumps(rep)))
+        return None
     if s.get("cfg", "default") != "default":
         return None     # configured overrides: outside the property, correspondence only
     toks = obs.split()
@@ -443,6 +501,8 @@ def oracle(s, obs):
 def kind_fn(s, o):
     if s.get("kind") == "config":
         return "config"
+    if s.get("kind") == "parse":
+        return "unit: reply parsing + hdrExpirationTime"
     if s.get("cfg"):
         return "override configuration " + s["cfg"]
     later = sorted(set(t.split(":")[0].split("!")[0] for t in o.split()[1:]))
@@ -450,6 +510,8 @@ def kind_fn(s, o):
 
 
 def nontrivial_fn(s, o):
+    if s.get("kind") == "parse":
+        return explicit_lifetime(s["rep"], s["now"]) is not None
     return "hit" in o and ("reval" in o or o.count("miss") > 1)
 
 
@@ -476,3 +538,30 @@ def run(res, tier):
             except Exception:
                 pass
         _state.clear()
+
+
+def replay(d):
+    """./verif replay evidence/replay/C12-*.json: runs the recorded scenario again (model prediction, real squid, oracle)"""
+    from vlib import coq
+    s = d.get("replay", {}).get("scenario")
+    if not s:
+        print(json.dumps(d, indent=1)[:4000])
+        return 0
+    print("scenario:", json.dumps(s))
+    model = corr.run_lines(coq.build_runner("refresh"), [to_case(s)])[0]
+    print("model   :", model)
+    try:
+        with lab.Lab(PID) as L:
+            L.build()
+            obs = run_impl(L, [s])[0]
+    finally:
+        for sq in _state.get("sq", {}).values():
+            try:
+                sq.kill()
+            except Exception:
+                pass
+        _state.clear()
+    print("squid   :", obs)
+    v = oracle(s, obs)
+    print("oracle  :", v if v else "property holds on this observation")
+    return 1 if (v or obs != model) else 0
